@@ -254,11 +254,60 @@ def r10_map_unwrap_or(text, count=None):
     return sub(text, pat, "match \\1 { Some(\\2) => \\3, None => \\4 }", count=count, name="R10")
 
 
+def _receiver_start(m, dot):
+    """start offset of the postfix-expression chain that ends right before m[dot] == '.'"""
+    p = dot
+    while True:
+        q = p - 1
+        while q >= 0 and m[q].isspace():
+            q -= 1
+        if q < 0:
+            return 0
+        ch = m[q]
+        if ch in ")]":
+            p = match_open(m, q)
+            continue
+        if ch == "?":
+            p = q
+            continue
+        if ch.isalnum() or ch == "_":
+            k = q
+            while k >= 0 and (m[k].isalnum() or m[k] == "_"):
+                k -= 1
+            p = k + 1
+            # path segment `a::b`
+            if m[:p].rstrip().endswith("::"):
+                p = len(m[:p].rstrip()) - 2
+                continue
+            # method chain: `.` before (possibly across whitespace)
+            r = p - 1
+            while r >= 0 and m[r].isspace():
+                r -= 1
+            if r >= 0 and m[r] == ".":
+                p = r
+                continue
+            if r >= 0 and m[r] == "&":
+                return r
+            return p
+        return p
+
+
 def r10_map_err(text, count=None):
-    """E.map_err(Path::Variant) at the end of an expression `X.map_err(V)` where X is a simple
-    identifier/call: -> match X { Ok(v) => Ok(v), Err(e) => Err(V(e)) }"""
-    pat = r"((?:[A-Za-z_]\w*)(?:\s*\.\s*[A-Za-z_]\w*(?:\([^()]*\))?)*)\s*\.\s*map_err\(\s*([A-Za-z_][\w:]*)\s*\)"
-    return sub(text, pat, "(match \\1 { Ok(vx_v) => Ok(vx_v), Err(vx_e) => Err(\\2(vx_e)) })", count=count, name="R10e")
+    """E.map_err(Path::Variant) -> (match E { Ok(v) => Ok(v), Err(e) => Err(Path::Variant(e)) })
+    for any postfix-chain receiver E (Verus rejects constructors used as function values)."""
+    k = 0
+    while True:
+        m = mask(text)
+        mm = re.search(r"\.\s*map_err\(\s*([A-Z_a-z][\w:]*)\s*\)", m)
+        if not mm:
+            break
+        s0 = _receiver_start(m, mm.start())
+        recv = text[s0:mm.start()]
+        text = text[:s0] + "(match %s { Ok(vx_v) => Ok(vx_v), Err(vx_e) => Err(%s(vx_e)) })" % (recv, mm.group(1)) + text[mm.end():]
+        k += 1
+    if (count is None and k == 0) or (count is not None and count >= 0 and k != count):
+        raise Undecided("R10e: %d map_err(Variant) sites, expected %s" % (k, count))
+    return text, k
 
 
 def r10_poll_map_err(text, variant, count=1):
